@@ -591,12 +591,91 @@ def c13(tier):
     return out
 
 
+def c14(tier):
+    out = []
+    uw = node_unwind(2)
+    uw.update(lss_unwind())
+    uw.update({'COSyncInit': 4, 'COSyncHandler': 4, 'COSyncUpdate': 4, 'COSyncRx': 9, 'CORPdoCheck': 4, 'CORPdoReset': 10, 'CORPdoWrite': 10, 'CORPdoGetMap': 10,
+               'COTPdoGetMap': 10, 'COTPdoTx': 10, 'COTmrClear': 4, 'COEmcyReset': 6, 'COTPdoNumWrite': 11, 'sum_bytes': 6, 'map_ok': 120,
+               'COTmrDelete': 5, 'COTmrInsert': 5, 'COTmrRemove': 6})
+    tg = ['cobid', 'type', 'count', 'map1', 'map2', 'map3', 'map4']
+    for d in (0, 1):
+        for t in range(7):
+            for mode in ((2, 3) if t <= 1 else (2,)):
+                defs = dict(NODE_DEFS)
+                defs.update({'DIR': d, 'TGT': t, 'MODE': mode, 'CO_VERIF_SDO_BUF_SEG': 2})
+                out.append(Inst('pdocfg_%s_%s_%s' % ('tpdo' if d else 'rpdo', tg[t], NMT_MODE[mode]), 'pdocfg_step.c', defs, unwind=130, unwindset=uw, objbits=10,
+                                harness_only=['DIR', 'TGT', 'MODE'], family='pdocfg_step',
+                                bounds='one SDO write to %s %s in %s: stored COB-ID (11 bit + valid bit), type, count 0..4, four mapping entries and the written value all symbolic' % (
+                                    'TPDO 0' if d else 'RPDO 0', tg[t], NMT_MODE[mode])))
+    return out
+
+
+TPDO_MAPS = {
+    'ab': [link(0x2103, 0, 8)],
+    'aw_ab': [link(0x2104, 0, 16), link(0x2103, 0, 8)],
+    'al_aw_ab_b': [link(0x2105, 0, 32), link(0x2104, 0, 16), link(0x2103, 0, 8), link(0x2100, 0, 8)],
+    'ab_al3_w': [link(0x2103, 0, 8), link(0x2105, 0, 24), link(0x2101, 0, 16)],
+    'l_al': [link(0x2102, 0, 32), link(0x2105, 0, 32)],
+    'b_b_b_b': [link(0x2100, 0, 8), link(0x2103, 0, 8), link(0x2100, 0, 8), link(0x2103, 0, 8)],
+    'w_l3_l3': [link(0x2101, 0, 16), link(0x2102, 0, 24), link(0x2105, 0, 24)],
+}
+
+TPDO_SEQS = [
+    # (sequence, inhibit(100us), event(ms), type, vals)
+    ('NG', 0, 0, 254), ('G', 0, 0, 254), ('NSG', 0, 0, 254), ('NPG', 0, 0, 254), ('NO', 0, 0, 255), ('NQ', 0, 0, 254), ('NOO', 0, 0, 254),
+    ('NGGTTG', 20, 0, 254), ('NGGTGTT', 20, 0, 254), ('NGTTTG', 30, 0, 254), ('NOGTT', 10, 0, 254), ('NGQTT', 10, 0, 254),
+    ('NTTTT', 0, 2, 254), ('NTGTTT', 0, 2, 254), ('NTTGTT', 0, 3, 255), ('NGTTTT', 20, 2, 254), ('NGTGTTT', 20, 3, 254), ('NGGTTTT', 20, 2, 254),
+    ('NGETT', 20, 0, 254), ('NGGETTG', 20, 0, 254), ('NGGETTT', 30, 2, 254), ('NETTT', 0, 0, 254), ('NTETT', 0, 3, 254), ('NGEGTG', 20, 0, 254),
+    ('NIGGT', 0, 0, 254), ('NISNGGTT', 0, 0, 254), ('NGSNGTG', 30, 0, 254), ('NGSTNTG', 20, 0, 254), ('NTSNTTT', 0, 2, 254), ('NGPNGGT', 20, 0, 254),
+    ('NVG', 0, 0, 254), ('NVUG', 0, 0, 254), ('VNG', 0, 0, 254), ('NVUTTT', 0, 2, 254), ('NGVUG', 30, 0, 254),
+    ('NYYYY', 0, 0, 1), ('NYYYY', 0, 0, 2), ('NYYYYY', 0, 0, 3), ('NYYSYNY', 0, 0, 2), ('YNYY', 0, 0, 1), ('NYSYNYY', 0, 0, 2), ('NYY', 0, 0, 240),
+]
+
+
+def tpdo_inst(mapname, seq, inh, evt, ttype, vals=(1, 1, 1, 1, 1, 1, 1, 1, 1)):
+    m = TPDO_MAPS[mapname]
+    defs = dict(NODE_DEFS)
+    defs.update({'MAP': '{' + ','.join('0x%08X' % x for x in m) + '}', 'MAPN': len(m), 'OPSEQ': '"%s"' % seq, 'INH0': inh, 'EVT0': evt, 'TTYPE': ttype,
+                 'VALS': '{' + ','.join(str(v) for v in vals) + '}', 'CO_VERIF_SDO_BUF_SEG': 2, 'CO_TPDO_N': 1, 'OD_TMR_N': 4})
+    if (('O' in seq) or ('Q' in seq)) and (inh or evt):
+        defs['CONCV'] = None
+    uw = node_unwind(2)
+    uw.update(lss_unwind())
+    uw.update({'COSyncInit': 4, 'COSyncHandler': 4, 'COSyncUpdate': 4, 'COSyncRx': 9, 'CORPdoCheck': 4, 'CORPdoReset': 10, 'CORPdoWrite': 10, 'CORPdoGetMap': 10,
+               'COTPdoGetMap': 10, 'COTPdoTx': 10, 'COTmrClear': 4, 'COEmcyReset': 6, 'COTmrDelete': 5, 'COTmrInsert': 5, 'COTmrRemove': 6, 'COTmrProcess': 5,
+               'COTmrReset': 5, 'CoVerifTmrPool': 5, 'check_frame': 9, 'COTPdoTrigObj': 9, 'COTPdoMapClear': 9, 'COTPdoMapAdd': 9})
+    return Inst('tpdo_%s_%s_i%d_e%d_t%d%s' % (mapname, seq, inh, evt, ttype, '' if vals[0] == 1 and len(set(vals)) == 1 else '_v' + ''.join(str(v) for v in vals[:len(seq)])),
+                'tpdo_bmc.c', defs, unwind=18, unwindset=uw, objbits=10,
+                harness_only=['MAP', 'MAPN', 'OPSEQ', 'INH0', 'EVT0', 'TTYPE', 'VALS', 'CONCV'], family='tpdo_bmc',
+                bounds='mapping %s, operations %s, inhibit %d x100us, event %d ms, type %d, written times %s; mapped values symbolic' % (mapname, seq, inh, evt, ttype, list(vals[:len(seq)])))
+
+
+def c12(tier):
+    out = []
+    for mn in TPDO_MAPS:
+        out.append(tpdo_inst(mn, 'NG', 0, 0, 254))
+        out.append(tpdo_inst(mn, 'NYY', 0, 0, 2))
+    for sq, inh, evt, tt in TPDO_SEQS:
+        out.append(tpdo_inst('aw_ab', sq, inh, evt, tt))
+        if 'E' in sq or 'I' in sq:
+            out.append(tpdo_inst('aw_ab', sq, inh, evt, tt, vals=(2, 3, 2, 3, 2, 3, 2, 3, 2)))
+            out.append(tpdo_inst('aw_ab', sq, inh, evt, tt, vals=(0, 0, 0, 0, 0, 0, 0, 0, 0)))
+    if tier != 'quick':
+        import itertools
+        for t in itertools.product('GTOE', repeat=5):
+            out.append(tpdo_inst('ab', 'N' + ''.join(t), 20, 2, 254, vals=(1, 2, 1, 2, 1, 2, 1, 2, 1)))
+    return out
+
+
 def c01(tier):
     return sdo_step_insts(tier) + sdo_two_servers(tier)
 
 
 PROPS = {
     'C01': c01,
+    'C12': c12,
+    'C14': c14,
     'C13': c13,
     'C16': c16,
     'C10': c10,
